@@ -25,6 +25,12 @@ impl ChannelNumber {
 //@end
 }
 impl EncodeAttributeValue for ChannelNumber {
+    open spec fn post_wire(&self, enc: Seq<u8>, val: Seq<u8>) -> Seq<u8> { val }
+    open spec fn post_ok(&self, enc: Seq<u8>, val: Seq<u8>) -> bool { true }
+    // the provided method of the trait (nothing to do after the length is known), as instantiated for this kind
+//@item stun_rs :: mod attributes > trait EncodeAttributeValue > fn post_encode
+//@tags C02 C14 C01
+//@end
     open spec fn wire(&self, enc: Seq<u8>) -> Seq<u8> { be16_seq(self.number as int) + be16_seq(self.rffu as int) }
     open spec fn encodable(&self, enc: Seq<u8>) -> bool { true }
 //@item stun_rs :: mod attributes > mod turn > mod channel_number > impl EncodeAttributeValue for ChannelNumber > fn encode
@@ -75,6 +81,12 @@ impl EvenPort {
 //@end
 }
 impl EncodeAttributeValue for EvenPort {
+    open spec fn post_wire(&self, enc: Seq<u8>, val: Seq<u8>) -> Seq<u8> { val }
+    open spec fn post_ok(&self, enc: Seq<u8>, val: Seq<u8>) -> bool { true }
+    // the provided method of the trait (nothing to do after the length is known), as instantiated for this kind
+//@item stun_rs :: mod attributes > trait EncodeAttributeValue > fn post_encode
+//@tags C02 C14 C01
+//@end
     open spec fn wire(&self, enc: Seq<u8>) -> Seq<u8> { seq![if self.0 { 0x80u8 } else { 0u8 }] }
     open spec fn encodable(&self, enc: Seq<u8>) -> bool { true }
 //@item stun_rs :: mod attributes > mod turn > mod even_port > impl EncodeAttributeValue for EvenPort > fn encode
@@ -156,6 +168,12 @@ impl RequestedTrasport {
 //@end
 }
 impl EncodeAttributeValue for RequestedTrasport {
+    open spec fn post_wire(&self, enc: Seq<u8>, val: Seq<u8>) -> Seq<u8> { val }
+    open spec fn post_ok(&self, enc: Seq<u8>, val: Seq<u8>) -> bool { true }
+    // the provided method of the trait (nothing to do after the length is known), as instantiated for this kind
+//@item stun_rs :: mod attributes > trait EncodeAttributeValue > fn post_encode
+//@tags C02 C14 C01
+//@end
     open spec fn wire(&self, enc: Seq<u8>) -> Seq<u8> { seq![self.0.0, 0u8, 0u8, 0u8] }
     open spec fn encodable(&self, enc: Seq<u8>) -> bool { true }
 //@item stun_rs :: mod attributes > mod turn > mod requested_transport > impl EncodeAttributeValue for RequestedTrasport > fn encode
@@ -221,6 +239,12 @@ impl From<[u8; RESERVATION_TOKEN_SIZE]> for ReservationToken {
 //@end
 }
 impl EncodeAttributeValue for ReservationToken {
+    open spec fn post_wire(&self, enc: Seq<u8>, val: Seq<u8>) -> Seq<u8> { val }
+    open spec fn post_ok(&self, enc: Seq<u8>, val: Seq<u8>) -> bool { true }
+    // the provided method of the trait (nothing to do after the length is known), as instantiated for this kind
+//@item stun_rs :: mod attributes > trait EncodeAttributeValue > fn post_encode
+//@tags C02 C14 C01
+//@end
     open spec fn wire(&self, enc: Seq<u8>) -> Seq<u8> { self.0@ }
     open spec fn encodable(&self, enc: Seq<u8>) -> bool { true }
 //@item stun_rs :: mod attributes > mod turn > mod reservation_token > impl EncodeAttributeValue for ReservationToken > fn encode
@@ -345,6 +369,12 @@ impl Icmp {
 }
 pub open spec fn icmp_word(t: int, c: int) -> int { t * 512 + c }
 impl EncodeAttributeValue for Icmp {
+    open spec fn post_wire(&self, enc: Seq<u8>, val: Seq<u8>) -> Seq<u8> { val }
+    open spec fn post_ok(&self, enc: Seq<u8>, val: Seq<u8>) -> bool { true }
+    // the provided method of the trait (nothing to do after the length is known), as instantiated for this kind
+//@item stun_rs :: mod attributes > trait EncodeAttributeValue > fn post_encode
+//@tags C02 C14 C01
+//@end
     open spec fn wire(&self, enc: Seq<u8>) -> Seq<u8> {
         seq![0u8, 0u8] + be16_seq(icmp_word(self.icmp_type.val() as int, self.icmp_code.val() as int)) + self.error_data@
     }
@@ -443,6 +473,12 @@ impl AddressErrorCode {
 //@end
 }
 impl EncodeAttributeValue for AddressErrorCode {
+    open spec fn post_wire(&self, enc: Seq<u8>, val: Seq<u8>) -> Seq<u8> { val }
+    open spec fn post_ok(&self, enc: Seq<u8>, val: Seq<u8>) -> bool { true }
+    // the provided method of the trait (nothing to do after the length is known), as instantiated for this kind
+//@item stun_rs :: mod attributes > trait EncodeAttributeValue > fn post_encode
+//@tags C02 C14 C01
+//@end
     open spec fn wire(&self, enc: Seq<u8>) -> Seq<u8> {
         error_code_wire(self.error_code.code() as int, self.error_code.reason_chars()).update(0, family_code(self.family))
     }
